@@ -352,7 +352,8 @@ func (p *parser) processCtl(nodes []node, root *node, ctl []byte, pos int) ([]no
 			// Simple tpl found.
 			root.raw, root.mod, root.noesc = p.extractMods(bytealg.Trim(m[2], ctlTrimAll), m[1])
 		} else if m = reTplCB.FindSubmatch(ct); m != nil {
-			root.raw, root.mod, root.noesc = p.extractMods(bytealg.Trim(m[0], ctlTrimAll), m[1])
+			// The call form has no escape directive: the name of the modifier must not be read as one.
+			root.raw, root.mod, root.noesc = p.extractMods(bytealg.Trim(m[0], ctlTrimAll), nil)
 		} else {
 			root.raw, root.mod, root.noesc = p.extractMods(bytealg.Trim(ct, ctlTrimAll), nil)
 		}
